@@ -337,6 +337,7 @@ Definition is_lookup (st : fstep) : bool :=
   | FGet _ | FGetAny _ | FSelect _ | FSelectAny _ => true
   | FSeq (HWin w _ _ _ _ inplace) => negb inplace && match w with RRc => false | _ => true end
   | FBasket ix _ _ _ _ => match ix with QRc => false | _ => true end
+  | FAllGet _ | FAllSelect _ => true
   | _ => false
   end.
 Lemma list_set_same {A} (l : list A) k x : nth_error l k = Some x -> list_set l k x = l.
@@ -354,7 +355,7 @@ Qed.
 Lemma lookup_keeps_state qs obj st : is_lookup st = true -> snd (fstep_run qs obj st) = qs.
 Proof.
   intros H. unfold fstep_run. destruct (nth_error qs (Nat.modulo obj (length qs))) as [q|] eqn:Hq; [|reflexivity].
-  destruct st as [h|e|n|ns|n|ns|ix u sp fi gap]; cbn in H; try discriminate; try reflexivity.
+  destruct st as [h|e|n|ns|n|ns|ix u sp fi gap|n|n]; cbn in H; try discriminate; try reflexivity.
   - destruct h as [w u sp fi gap inplace| | | | | | | | | |]; try discriminate.
     apply andb_true_iff in H as [Hi Hw]. apply negb_true_iff in Hi. subst inplace.
     pose proof (build_win_not_rc w Hw) as Hb. cbn.
@@ -498,4 +499,22 @@ Proof.
   - rewrite <- rev_app_distr, <- Hs, rev_involutive. reflexivity.
   - rewrite forallb_forall in *. intros x Hx. apply Hp, in_rev, Hx.
   - rewrite rev_involutive. exact Hh.
+Qed.
+
+(* ------------------------------------------------------------------ lookups over all objects of a basket *)
+Fixpoint first_some {A} (l : list (option A)) : option A :=
+  match l with
+  | [] => None
+  | Some x :: _ => Some x
+  | None :: r => first_some r
+  end.
+(* BioBasket(objs).fts.get(name): the answer of the first sequence, in basket order, that has a feature of the type;
+   .select(name): the selections of the sequences one after the other *)
+Theorem get_all_objects name qs :
+  fts_get name (flat_map sfts qs) = first_some (map (fun q => fts_get name (sfts q)) qs) /\
+  fts_select name (flat_map sfts qs) = flat_map (fun q => fts_select name (sfts q)) qs.
+Proof.
+  split.
+  - induction qs as [|q r IH]; cbn; [reflexivity|]. rewrite fts_get_app, IH. destruct (fts_get name (sfts q)); reflexivity.
+  - unfold fts_select. induction qs as [|q r IH]; cbn; [reflexivity|]. rewrite filter_app, IH. reflexivity.
 Qed.
